@@ -393,3 +393,125 @@ pub fn big_pair(rng: &mut Rng, min: usize, max: usize) -> (Vec<u32>, Vec<u32>) {
         (b, a)
     }
 }
+
+/// Two long, mostly unrelated sequences (fillers are distinct and one-sided) that share `k`
+/// landmark items, `crossing` of which appear in a different relative order.  The edit
+/// distance is about n + m: this drives the search through thousands of rounds.
+pub fn landmark_pair(rng: &mut Rng, n: usize, m: usize, k: usize, crossing: usize) -> (Vec<u32>, Vec<u32>) {
+    let mut a: Vec<u32> = (0..n as u32).map(|i| 10_000_000 + i).collect();
+    let mut b: Vec<u32> = (0..m as u32).map(|i| 20_000_000 + i).collect();
+    let k = k.min(n).min(m);
+    let mut pa: Vec<usize> = (0..k).map(|_| rng.below(n.max(1))).collect();
+    let mut pb: Vec<usize> = (0..k).map(|_| rng.below(m.max(1))).collect();
+    pa.sort();
+    pa.dedup();
+    pb.sort();
+    pb.dedup();
+    let k = pa.len().min(pb.len());
+    for j in 0..k {
+        a[pa[j]] = 30_000_000 + j as u32;
+        b[pb[j]] = 30_000_000 + j as u32;
+    }
+    // a few landmarks in crossing order
+    for c in 0..crossing.min(k / 2) {
+        let (x, y) = (2 * c, 2 * c + 1);
+        b.swap(pb[x], pb[y]);
+    }
+    (a, b)
+}
+
+/// Common head and tail around a replaced block: `l1` old items are replaced by `l2` unrelated
+/// new items (strongly asymmetric sizes included).
+pub fn asymmetric_replace(rng: &mut Rng, head: usize, tail: usize, l1: usize, l2: usize) -> (Vec<u32>, Vec<u32>) {
+    let alpha = *rng.pick(&[0u32, 0, 30]);
+    let common = |rng: &mut Rng, n: usize, base: u32| -> Vec<u32> {
+        if alpha == 0 {
+            (0..n as u32).map(|i| base + i).collect()
+        } else {
+            (0..n).map(|_| rng.below(alpha as usize) as u32).collect()
+        }
+    };
+    let h = common(rng, head, 1_000_000);
+    let t = common(rng, tail, 2_000_000);
+    let mut a = h.clone();
+    a.extend((0..l1 as u32).map(|i| 10_000_000 + i));
+    a.extend_from_slice(&t);
+    let mut b = h;
+    b.extend((0..l2 as u32).map(|i| 20_000_000 + i));
+    b.extend_from_slice(&t);
+    (a, b)
+}
+
+/// `n` items (distinct or from a small alphabet) with all edits confined to a window of at
+/// most `window` items: cheap for every algorithm (LCS strips the common prefix and suffix).
+pub fn windowed_edit_pair(rng: &mut Rng, n: usize, window: usize) -> (Vec<u32>, Vec<u32>) {
+    let alpha = *rng.pick(&[0u32, 0, 5, 40]);
+    let a: Vec<u32> = if alpha == 0 { (0..n as u32).collect() } else { (0..n).map(|_| rng.below(alpha as usize) as u32).collect() };
+    let w = window.min(n);
+    let start = if n > w { rng.below(n - w + 1) } else { 0 };
+    let mid: Vec<u32> = a[start..start + w].to_vec();
+    let k = 1 + rng.below(5);
+    let mut mid2 = point_edits(rng, &mid, k, if alpha == 0 { 1_000_000 } else { alpha }, w + 20);
+    if rng.chance(1, 3) && mid2.len() >= 2 {
+        let i = rng.below(mid2.len() - 1);
+        mid2.swap(i, i + 1);
+    }
+    let mut b = a[..start].to_vec();
+    b.extend_from_slice(&mid2);
+    b.extend_from_slice(&a[start + w..]);
+    (a, b)
+}
+
+pub const SIZES_NEAR_BOUNDARIES: [usize; 18] = [255, 256, 257, 1000, 1023, 1024, 1025, 2047, 2048, 2049, 4095, 4096, 4097, 4200, 8191, 8192, 8193, 9000];
+
+/// Long runs of one repeated item next to a pure insertion / deletion / replacement, so that
+/// compaction has to slide an edit across thousands of identical items.
+pub fn long_run_pair(rng: &mut Rng, run: usize) -> (Vec<u32>, Vec<u32>) {
+    let x = 7u32;
+    let before = rng.below(run / 4 + 2);
+    let mut a: Vec<u32> = vec![x; before];
+    let marker = if rng.chance(1, 2) { vec![9u32] } else { vec![9u32, x, 9] };
+    a.extend_from_slice(&marker);
+    a.extend(std::iter::repeat(x).take(run));
+    if rng.chance(1, 3) {
+        a.push(11);
+    }
+    let b: Vec<u32> = match rng.below(4) {
+        // the marker disappears and the run is longer / shorter: an insertion of x's that can sit anywhere
+        0 => {
+            let mut b = vec![x; before + run + 1 + rng.below(3)];
+            if a.last() == Some(&11) {
+                b.push(11);
+            }
+            b
+        }
+        // one more x somewhere in the run
+        1 => {
+            let mut b = a.clone();
+            let at = before + marker.len() + rng.below(run + 1);
+            b.insert(at, x);
+            b
+        }
+        // a block of the run removed
+        2 => {
+            let mut b = a.clone();
+            let at = before + marker.len() + rng.below(run / 2 + 1);
+            let l = (1 + rng.below(5)).min(b.len() - at);
+            b.drain(at..at + l);
+            b
+        }
+        _ => {
+            let mut b = a.clone();
+            let at = rng.below(b.len() + 1);
+            b.insert(at, 13);
+            let at2 = rng.below(b.len() + 1);
+            b.insert(at2, x);
+            b
+        }
+    };
+    if rng.chance(1, 2) {
+        (a, b)
+    } else {
+        (b, a)
+    }
+}
